@@ -1031,10 +1031,30 @@ impl Compiler {
 /// negative multiples (e.g. `-6` for `multipleOf 3`) would be rejected.
 /// Divisibility is independent of sign.
 /// https://github.com/guidance-ai/llguidance/issues/222
+///
+/// `MultipleOf(d, s)` also insists on either no fraction at all or exactly `s`
+/// fractional digits (`1` and `1.50` for 0.25, but not `1.5`). A multiple with
+/// `k < s` fractional digits is a multiple of `lcm(d, 10^(s-k)) * 10^-s`, which
+/// is `MultipleOf(lcm(d, 10^(s-k)) / 10^(s-k), k)`; add those spellings.
 fn signed_multiple_of_ast(coef: u32, exp: u32) -> RegexAst {
+    let mut spellings = vec![RegexAst::MultipleOf(coef, exp)];
+    for k in 1..exp {
+        let p = match 10u64.checked_pow(exp - k) {
+            Some(p) => p,
+            None => continue,
+        };
+        let (mut a, mut b) = (coef as u64, p);
+        while b != 0 {
+            (a, b) = (b, a % b);
+        }
+        // lcm(coef, p) / p
+        if let Ok(c) = u32::try_from(coef as u64 / a) {
+            spellings.push(RegexAst::MultipleOf(c, k));
+        }
+    }
     RegexAst::Concat(vec![
         RegexAst::Regex("-?".to_string()),
-        RegexAst::MultipleOf(coef, exp),
+        RegexAst::Or(spellings),
     ])
 }
 
